@@ -21,6 +21,7 @@ PKG = "jsonpath_rfc9535"
 CONFIGURABLE = {"JSONPathEnvironment"}
 OPEN_BASES = {"FilterFunction"}
 LISTLIKE = {"JSONPathNodeList"}  # list subclasses: modelled by VNodeList
+SINGLETONS = {"Nothing": "VNothing"}  # classes with one instance (NOTHING): a nullary constructor
 
 BUILTIN_EXC = {
     # name -> base
@@ -176,6 +177,27 @@ class Source:
             out += [x for x in self.mro(BUILTIN_EXC[name]) if x not in out]
         return out
 
+    def abstract_names(self, name: str) -> set[str]:
+        """names of abstract methods/properties still unimplemented in class `name`"""
+        ci = self.classes.get(name)
+        if not ci:
+            return set()
+        out = set()
+        for b in ci.bases:
+            out |= self.abstract_names(b)
+        for m, fn in ci.methods.items():
+            is_abs = any((isinstance(d, ast.Name) and d.id == "abstractmethod") or (isinstance(d, ast.Attribute) and d.attr == "abstractmethod") for d in fn.decorator_list)
+            if is_abs:
+                out.add(m)
+            else:
+                out.discard(m)
+        for a in ci.class_attrs:
+            out.discard(a)
+        return out
+
+    def is_abstract(self, name: str) -> bool:
+        return bool(self.abstract_names(name))
+
     def subclasses(self, name: str) -> list[str]:
         return [c for c in self.classes if name in self.mro(c)]
 
@@ -197,7 +219,7 @@ class Universe:
     def __init__(self, src: Source):
         self.src = src
         # object classes = non-enum, non-exception package classes
-        self.obj_classes = [c for c, ci in src.classes.items() if not ci.is_enum and not ci.is_exc and c not in LISTLIKE]
+        self.obj_classes = [c for c, ci in src.classes.items() if not ci.is_enum and not ci.is_exc and c not in LISTLIKE and c not in SINGLETONS]
         self.enum_classes = [c for c, ci in src.classes.items() if ci.is_enum]
         self.exc_classes = list(BUILTIN_EXC) + [c for c, ci in src.classes.items() if ci.is_exc]
         self.exc_id = {c: k for k, c in enumerate(self.exc_classes)}
@@ -256,7 +278,8 @@ class Universe:
         return [c for c in self.obj_classes if f in self.src.classes[c].fields]
 
     def isinstance_obj(self, t, cls):
-        subs = [c for c in self.src.subclasses(cls) if c in self.obj_classes]
+        # abstract classes have no direct instances
+        subs = [c for c in self.src.subclasses(cls) if c in self.obj_classes and not self.src.is_abstract(c)]
         alts = [self.R["C_" + c](t) for c in subs]
         if cls in OPEN_BASES or any(b in OPEN_BASES for b in self.src.mro(cls)):
             if cls in OPEN_BASES:
